@@ -648,3 +648,5 @@ META = {
 }
 
 META["more"] += ' The FIFO ticket of a flusher or field reader is given up on exception paths too (try/finally around the work under the ticket).'
+
+META["more"] += ' No read path of the history backends or the lazy JSON reader rebuilds a slice as slice(*s.indices(n)) (defect repaired in LJNode._getitem_sequence).'
